@@ -265,7 +265,17 @@ def _world_cfg(unyt):
         k not in la0 and not (len(k) > 1 and k[1:] in la0 or k[2:] in la0) for k in ra.lut)
     uses_left = (all(x.registry is ra for x in res) and ares[0].units.registry is ra and ares[1].units.registry is ra
                  and ares[2].units.registry is rb)
-    return dict(cachesExplicit=bool(caches_explicit), mixedUsesLeft=bool(uses_left), mixedWritesTable=bool(writes_table))
+    # define_unit in a custom registry must not touch the unyt namespace nor the default registry
+    from unyt import define_unit
+    from unyt.unit_registry import default_unit_registry as DR
+    import unyt as _u
+
+    rc = UnitRegistry()
+    before = set(vars(_u))
+    define_unit("c13probeunit", (2.0, "m"), registry=rc, prefixable=True)
+    exports_custom = (set(vars(_u)) != before) or ("c13probeunit" in DR.lut)
+    return dict(cachesExplicit=bool(caches_explicit), mixedUsesLeft=bool(uses_left), mixedWritesTable=bool(writes_table),
+                defineUnitLeaks=bool(exports_custom))
 
 
 def _default_refuses(unyt):
@@ -328,7 +338,9 @@ def generate(X):
         + "/-- explicit-data units and the string cache; whose registry a mixed-registry result carries -/\n"
         + f"def worldCfg : WCfg := ⟨{b(wc['cachesExplicit'])}⟩\n"
         + f"def mixedUsesLeft : Bool := {b(wc['mixedUsesLeft'])}\n"
-        + f"def mixedWritesTable : Bool := {b(wc['mixedWritesTable'])}\n\n"
+        + f"def mixedWritesTable : Bool := {b(wc['mixedWritesTable'])}\n"
+        + "/-- `define_unit(…, registry=<custom>)` set an attribute on the `unyt` module or wrote the default table -/\n"
+        + f"def defineUnitLeaks : Bool := {b(wc['defineUnitLeaks'])}\n\n"
         + "/-- `default_unit_registry.modify/remove` raise TypeError and leave table and memo alone -/\n"
         + f"def defaultRefuses : Bool := {b(refuses)}\n\n"
         + "end Unyt.Generated\n"
